@@ -146,6 +146,13 @@ def run_s5(chk, quick, rnd, replay_execs=None):
             for i, b in enumerate(classes):
                 size = b["n"] * unit - (i % 2 if unit > 1 and b["n"] > 0 else 0)     # last unit full / one byte short
                 execs.append(dict(b, method="socks5", unit=unit, size=size, cseed=rnd.getrandbits(40)))
+        # the stream host offer with the right session id from a foreign full JID, just before the genuine one
+        for w in ("from", "res"):
+            for b in classes:
+                if any(st["a"] == "Fault" for st in b["steps"]) or (quick and b["n"] not in (0, 1, 3)):
+                    continue
+                execs.append(dict(b, steps=[{"a": "ForeignOffer", "w": w}] + b["steps"], method="socks5", unit=1000,
+                                  size=b["n"] * 1000, foreign=w, cseed=rnd.getrandbits(40)))
         # offers that announce less: fault-free for every announcement; one fault where what is announced must notice it
         for ann in OTHER_ANNS:
             for i, b in enumerate(classes):
@@ -186,17 +193,51 @@ def run_s5(chk, quick, rnd, replay_execs=None):
     return execs, cases, s
 
 
+def twin_execs(rnd, quick):
+    """Two peers offering with the SAME session id at the same time (stranger / other resource of the sender's
+    account), interleaved by a seeded schedule; each must get exactly its own bytes."""
+    out = []
+    for peer2 in ("X", "Y"):
+        for ann in (("both", "none") if quick else ("both", "size", "hash", "none")):
+            for bs, n1, n2 in ([(3, 2, 3), (1000, 3, 1)] if quick else [(1, 4, 6), (3, 2, 3), (3, 0, 2), (1000, 3, 1), (4096, 2, 2), (4096, 1, 5)]):
+                for _ in range(2 if quick else 4):
+                    out.append({"mode": "twin", "peer2": peer2, "ann": ann, "bs": bs, "size": max(0, n1 * bs - rnd.randrange(2)),
+                                "size2": max(0, n2 * bs - rnd.randrange(2)), "cseed": rnd.getrandbits(40),
+                                "sched": rnd.getrandbits(40), "n": n1, "steps": []})
+    return out
+
+
+def run_twin(chk, quick, rnd, replay_execs=None):
+    execs = replay_execs if replay_execs is not None else twin_execs(rnd, quick)
+    empty = {"cases": 0, "lines": 0, "viol": [], "ndiv": 0, "divs": [], "faulted": 0, "clean": 0, "wall_s": 0}
+    if not execs:
+        return [], {}, empty
+    vf.write_ndjson(chk.path("behaviours-twin.ndjson"), execs)
+    trace = chk.path("trace-twin.ndjson")
+    r = vf.qxv("ibbtwin", trace, in_path=chk.path("behaviours-twin.ndjson"), seed=chk.seed, tier=chk.tier, check=True)
+    chk.cov["twin_replay_wall_s"] = r["wall_s"]
+    s = vf.tlc_trace("IbbTrace.tla", "IbbTrace.cfg", trace, tag="IbbTrace-twin")
+    return execs, vf.split_cases(trace), s
+
+
+def short_twin(b, case):
+    return (f"two peers, same sid (peer 2 = {'stranger' if b['peer2'] == 'X' else 'other resource of the account'}), ann={b['ann']}, "
+            f"bs={b['bs']}, sizes {b['size']}/{b['size2']}, lane {'1' if case.endswith('a') else '2'}")
+
+
 def short_s5(b):
     f = [s for s in b["steps"] if s["a"] == "Fault"]
+    if b.get("foreign"):
+        return f"socks5/ann={b.get('ann', 'both')}/size={b.get('size')}/n={b['n']}:foreign stream host offer ({b['foreign']}), clean"
     return f"socks5/ann={b.get('ann', 'both')}/unit={b.get('unit')}/size={b.get('size')}/n={b['n']}:" + (f"{f[0]['k']}(unit {f[0]['u']})" if f else "clean")
 
 
-def klass(b, lines):
+def klass(b, lines, prop=""):
     """Class of an execution for the violation signature: the faults that were *applied* (logged)."""
     ks = [ln["k"] for ln in lines if ln["e"] == "Fault"]
-    inj = [ln["w"] for ln in lines if ln["e"] == "Inject"]
+    inj = [ln["w"] + "/" + ln.get("t", "data") for ln in lines if ln["e"] == "Inject"]
     c = "+".join(ks) if ks else "clean"
-    if inj and not ks:
+    if inj and (not ks or prop == "ForeignInert"):
         c += "+inject(" + ",".join(inj) + ")"
     return c + (":blocks>65536" if b["n"] > 65536 else "") + (":ann=" + b["ann"] if b.get("ann", "both") != "both" else "")
 
@@ -206,7 +247,8 @@ def short(b):
     for s in b["steps"]:
         a = s["a"]
         parts.append({"RDeliver": "R", "SDeliver": "S", "Offer": "O"}.get(a, a) +
-                     ("(" + str(s.get("k", s.get("w"))) + ")" if a in ("Fault", "Inject", "Burst") else ""))
+                     ("(" + str(s.get("k", s.get("w"))) + ("/" + s["t"] if "t" in s else "") + ")"
+                      if a in ("Fault", "Inject", "Burst") else ""))
     return f"{b.get('sender', 'real')}/ann={b.get('ann', 'both')}/bs={b.get('bs')}/size={b.get('size')}/n={b['n']}:" + ",".join(parts)
 
 
@@ -260,9 +302,11 @@ def run(chk, replay=None):
         chk.mc(vf.tlc_mc("Ibb.tla", "Ibb2.cfg", workers=4), "Ibb2.cfg (two faults: safety)")
     # 2. behaviours
     s5_replay = None
+    tw_replay = None
     if replay:
         items = [b for b in vf.read_ndjson(replay) if "steps" in b]
-        execs = [b for b in items if b.get("method") != "socks5"]
+        execs = [b for b in items if b.get("method") != "socks5" and b.get("mode") != "twin"]
+        tw_replay = [b for b in items if b.get("mode") == "twin"]
         s5_replay = [b for b in items if b.get("method") == "socks5"]
         chk.cov["generation"] = {"replay": replay}
     else:
@@ -276,7 +320,7 @@ def run(chk, replay=None):
             tour, st4 = vf.tlc_gen("IbbGen.tla", "IbbGenTour2.cfg")
             st4["sampled"] = min(len(tour), 2500)
             tour = rnd.sample(tour, st4["sampled"])
-            sim, st5 = vf.tlc_simulate("IbbGen.tla", "IbbGenTour2.cfg", num=1500, depth=40, seed=chk.seed)
+            sim, st5 = vf.tlc_simulate("IbbGen.tla", "IbbGenTour2.cfg", num=800, depth=40, seed=chk.seed)
             extra = vf.maximal_behaviours(tour + sim)
             chk.cov["generation"].update({"tour_two_faults": st4, "simulate_two_faults": st5})
         execs = concretise(vf.maximal_behaviours(one + inj + mix), rnd, 0.5 if quick else 1.0) + concretise(extra, rnd, 1.0)
@@ -304,6 +348,8 @@ def run(chk, replay=None):
             idx = int(last[1:]) - 1 if last else 0
             crashed = (execs[idx] if execs else None, vf.san_signature(r))
         s = validate_in_chunks(chk, trace)
+    # two concurrent offers with the same session id from different full JIDs: each lane validated as an execution of Ibb
+    tw_execs, tw_cases, tw = run_twin(chk, quick, rnd, tw_replay)
     # 5. SOCKS5: model check, one real loopback transfer per class of behaviours, outcome validation
     s5_execs, s5_cases, s5 = run_s5(chk, quick, rnd, s5_replay)
     applied = collections.Counter()
@@ -312,21 +358,22 @@ def run(chk, replay=None):
             if ln["e"] == "Fault":
                 applied[ln["k"]] += 1
             elif ln["e"] == "Inject":
-                applied["Inject:" + ln["w"]] += 1
+                applied["Inject:" + ln["w"] + "/" + ln.get("t", "data")] += 1
     for lines in s5_cases.values():
         if lines[-1].get("o", {}).get("applied"):
             applied["socks5:" + lines[0].get("k", "?")] += 1
-    chk.cov["traces_validated_against_impl"] = s["cases"] + s5["cases"]
+    chk.cov["traces_validated_against_impl"] = s["cases"] + s5["cases"] + tw["cases"]
+    chk.cov["twin_lane_executions"] = tw["cases"]
     chk.cov["inband_executions"] = s["cases"]
     chk.cov["socks5_executions"] = s5["cases"]
-    chk.cov["trace_lines"] = s["lines"] + s5["lines"]
+    chk.cov["trace_lines"] = s["lines"] + s5["lines"] + tw["lines"]
     chk.cov["trace_wall_s"] = round(s["wall_s"] + s5["wall_s"], 2)
     chk.cov["trace_chunks"] = s["chunks"]
     chk.cov["executions_with_stream_fault"] = s["faulted"] + s5["faulted"]
     chk.cov["executions_without_stream_fault"] = s["clean"] + s5["clean"]
     chk.cov["faults_applied_by_kind"] = dict(sorted(applied.items()))
-    chk.cov["diverged_executions"] = s["ndiv"] + s5["ndiv"]
-    chk.cov["first_divergences"] = (s["divs"] + s5["divs"])[:4]
+    chk.cov["diverged_executions"] = s["ndiv"] + s5["ndiv"] + tw["ndiv"]
+    chk.cov["first_divergences"] = (s["divs"] + tw["divs"] + s5["divs"])[:4]
     chk.cov["exhaustive"] = True
     chk.cov["bounds"] = {"model": "Ibb: W=4, files of 0..9 blocks, <=1 stream fault + <=1 foreign block (two of each: safety "
                                   "only); IbbS5: files of 0..5 units, <=1 fault",
@@ -368,7 +415,7 @@ def run(chk, replay=None):
     for case in sorted(by_case, key=lambda c: (len(cases.get(c, [])), int(c[1:]))):
         b = execs[int(case[1:]) - 1]
         for v in sorted(by_case[case], key=lambda v: v["prop"]):
-            sig = "C19:" + v["prop"] + ":" + klass(b, cases[case])
+            sig = "C19:" + v["prop"] + ":" + klass(b, cases[case], v["prop"])
             if sig in reported or len(reported) >= 6:
                 continue
             reported.add(sig)
@@ -376,6 +423,23 @@ def run(chk, replay=None):
             report(sig, f"{v['prop']} fails for {short(b)}: receiver {end.get('rs')}/{end.get('re')}, sender "
                    f"{end.get('ss')}/{end.get('se')}, receiver holds the sent bytes: {end.get('eq')} "
                    f"({end.get('rlen')} of {end.get('slen')} bytes)", [b] + cases[case])
+    by_case_t = {}
+    for v in tw["viol"]:
+        by_case_t.setdefault(v["case"], []).append(v)
+    reported_t = set()
+    for case in sorted(by_case_t, key=lambda c: (int(c[1:-1]), c[-1])):
+        b = tw_execs[int(case[1:-1]) - 1]
+        end = tw_cases[case][-1].get("o", {})
+        for v in sorted(by_case_t[case], key=lambda v: v["prop"]):
+            sig = "C19:" + v["prop"] + ":same-sid-two-peers:" + ("stranger" if b["peer2"] == "X" else "other-resource") + \
+                (":ann=" + b["ann"] if b["ann"] != "both" else "")
+            if sig in reported_t or len(reported_t) >= 3:
+                continue
+            reported_t.add(sig)
+            both = tw_cases.get(case[:-1] + "a", []) + tw_cases.get(case[:-1] + "b", [])
+            report(sig, f"{v['prop']} fails for {short_twin(b, case)}: receiver {end.get('rs')}/{end.get('re')}, sender "
+                   f"{end.get('ss')}/{end.get('se')}, receiver holds the sent bytes: {end.get('eq')} "
+                   f"({end.get('rlen')} of {end.get('slen')} bytes)", [b] + both)
     by_case5 = {}
     for v in s5["viol"]:
         by_case5.setdefault(v["case"], []).append(v)
@@ -385,14 +449,14 @@ def run(chk, replay=None):
         end = s5_cases[case][-1].get("o", {})
         for v in sorted(by_case5[case], key=lambda v: v["prop"]):
             sig = "C19:" + v["prop"] + ":socks5:" + (s5_cases[case][0].get("k") if end.get("applied") else "clean") + \
-                (":empty-file" if b["size"] == 0 else "") + (":ann=" + b["ann"] if b.get("ann", "both") != "both" else "")
+                (":foreign-offer" if b.get("foreign") else "") + (":empty-file" if b["size"] == 0 else "") + (":ann=" + b["ann"] if b.get("ann", "both") != "both" else "")
             if sig in reported5 or len(reported5) >= 4:
                 continue
             reported5.add(sig)
             report(sig, f"{v['prop']} fails for {short_s5(b)}: receiver {end.get('rs')}/{end.get('re')}, sender "
                    f"{end.get('ss')}/{end.get('se')}, receiver holds the sent bytes: {end.get('eq')} "
                    f"({end.get('rlen')} of {end.get('slen')} bytes)", [b] + s5_cases[case])
-    chk.cov["violating_executions"] = len(by_case) + len(by_case5)
+    chk.cov["violating_executions"] = len(by_case) + len(by_case5) + len(by_case_t)
     if crashed and not chk.violations:
         b, sg = crashed
         raise vf.MachineryError("qxv ibb ended abnormally (" + sg + ") while replaying " + (short(b) if b else "?") + ": " +
